@@ -191,6 +191,10 @@ def run(rep, tier):
                    select=lambda f: sym(f) and f['rule'] in ('S-value', 'S-flow', 'S-list', 'G1-no-trace', 'G2-as-sound',
                                                                'G2-cp-sound', 'G3-protocol'))
     rep.floor('configurations of List', tl.get('List', 0), 100)
+    # a repetition count written as inline Python over earlier-bound names denotes the value of that expression:
+    # the emitted length tests must keep the bound text in one piece (rule shared with C03 / C19)
+    from .. import mapping
+    mapping.bound_atomicity(rep)
     shared.driver_memo_per_call(rep)
     found, stats, nmods = routes.run(rep, 'C05', ['LOCAL-shadow', 'LOCAL-let-scope', 'PY-in-place', 'C05-', 'C14-field-tables',
                                                    'ARG-captures', 'ARG-key-complete'])
